@@ -11,6 +11,8 @@ import (
 	"bytes"
 	"fmt"
 	"os"
+	"os/exec"
+	"syscall"
 	"runtime"
 	"runtime/debug"
 	"strconv"
@@ -431,7 +433,26 @@ func textMutate(rng *lib.Rng, b []byte, k int) []byte {
 	return out
 }
 
+// allocChild runs one allocation probe in a child process with an address-space limit, so that a
+// fatal out-of-memory (which recover() cannot catch) is an observation instead of a harness crash.
+func allocChild(codec, opts string, in []byte) string {
+	cmd := exec.Command(os.Args[0], "-child-alloc", codec, opts, lib.Hex(string(in)))
+	cmd.Env = append(os.Environ(), "GOMEMLIMIT=3GiB")
+	out, err := cmd.Output()
+	if err != nil {
+		return "alloc:-1|crash"
+	}
+	return strings.TrimSpace(string(out))
+}
+
 func main() {
+	if len(os.Args) >= 5 && os.Args[1] == "-child-alloc" {
+		var rl syscall.Rlimit
+		rl.Cur, rl.Max = 6<<30, 6<<30
+		_ = syscall.Setrlimit(syscall.RLIMIT_AS, &rl)
+		fmt.Println(allocOf(os.Args[2], os.Args[3], []byte(lib.UnHex(os.Args[4]))))
+		return
+	}
 	fl := lib.ParseFlags()
 	var err error
 	ts, err = ipld.LoadSchemaBytes([]byte(typedSchema))
@@ -445,7 +466,7 @@ func main() {
 		out.Case(id, "dec", codec, target, opts, lib.Hex(string(in)), decode(codec, target, opts, in))
 	}
 	emitAlloc := func(id, codec, opts string, in []byte) {
-		out.Case(id, "alloc", codec, opts, lib.Hex(string(in)), allocOf(codec, opts, in))
+		out.Case(id, "alloc", codec, opts, lib.Hex(string(in)), allocChild(codec, opts, in))
 	}
 	emitPath := func(id, s string) { out.Case(id, "path", lib.Hex(s), pathObs(s)) }
 	if fl.Replay != "" {
